@@ -1229,6 +1229,20 @@ type prepared struct {
 
 // runJob runs one crash job in its own working copy of the repository (same action-log path text, so the
 // command texts and therefore the recorded hashes are those of the primary copy and of the clean builds).
+// failedToCreate returns the label in plz's "rule <label> failed to create output" message, or "".
+func failedToCreate(out string) string {
+	const k = "rule "
+	i := strings.Index(out, " failed to create output")
+	if i < 0 {
+		return ""
+	}
+	j := strings.LastIndex(out[:i], k)
+	if j < 0 {
+		return ""
+	}
+	return strings.TrimSpace(out[j+len(k) : i])
+}
+
 func runJob(pr *prepared, ji int, job crashJob, base string) *repoResult {
 	rr := &repoResult{}
 	idx, spec, spec2, labels, tis, refs, snapA, snapB, empty := pr.idx, pr.spec, pr.spec2, pr.labels, pr.tis, pr.refs, pr.snapA, pr.snapB, pr.empty
@@ -1379,6 +1393,11 @@ func runJob(pr *prepared, ji int, job crashJob, base string) *repoResult {
 		if rec.Exit != 0 {
 			if window != "" && strings.Contains(rec.Stderr+rec.Stdout, "failed to load build metadata for ") {
 				c.Fail("rebuild-of-current-target-killed-while-metadata-rewritten", fmt.Sprintf("%s: the next build trusts the current record on the declared outputs next to an empty metadata file and fails (%s, scenario %s)", window, firstLine(rec.Stderr+rec.Stdout, "failed to load"), scen), js)
+			} else if lbl := failedToCreate(rec.Stderr + rec.Stdout); lbl != "" && spec.Target(lbl) != nil && len(spec.Target(lbl).OutDirs) > 0 &&
+				job.Point.Mode == "path" && job.Point.Syscall == "lsetxattr" && strings.HasPrefix(job.Point.Path, "plz-out/gen/") && job.Point2 == nil {
+				// narrow class (listed): an output_dirs target killed while the records of its discovered outputs are being written;
+				// the next build does not recreate its declared output. Any other failing recovery stays under recovery-build-fails.
+				c.Fail("output-dirs-target-killed-while-recording-outputs-next-build-fails", fmt.Sprintf("%s: the build after the kill exits %d (scenario %s): %s", lbl, rec.Exit, scen, tailStr(rec.Stderr+rec.Stdout, 300)), js)
 			} else {
 				c.Fail("recovery-build-fails", fmt.Sprintf("the build after the kill exits %d (scenario %s): %s", rec.Exit, scen, tailStr(rec.Stderr+rec.Stdout, 300)), js)
 			}
